@@ -7,6 +7,7 @@ use std::panic::{AssertUnwindSafe, catch_unwind};
 mod util;
 mod svc;
 mod gen_backend;
+mod c01;
 mod c08;
 mod c09;
 mod c12;
@@ -45,6 +46,7 @@ fn main() {
 fn dispatch(suite: &str, case: &Value) -> Value {
     match suite {
         "svc" => svc::run(case),
+        "c01" => c01::run(case),
         "c08" => c08::run(case),
         "c09" => c09::run(case),
         "c12" => c12::run(case),
